@@ -263,7 +263,7 @@ fn exhaustive(tier: Tier) -> Box<dyn Iterator<Item = Case>> {
     }))
 }
 
-pub fn property() -> Property {
+pub fn property(_tier: Tier) -> Property {
     Property {
         id: "C06",
         level: "exploration",
